@@ -1,2 +1,4 @@
 from props.client_props import gen_c13
-PROP = {"id": "C13", "stages": [{"name": "client", "target": "h_client", "gen": gen_c13, "shard": 12}], "trivial_tags": [], "rule": "", "assumptions": []}
+PROP = {"id": "C13", "stages": [{"name": "client", "target": "h_client", "gen": gen_c13, "shard": 12}], "trivial_tags": [],
+        "rule": 'histories of connect / operations / disconnect(graceful or not) / reconnect with the old session ended normally, by 421, by a truncated or garbage reply, with leftover replies / partial lines / a lone LF in the old session, after failed transfers; connected flag, control life-cycle events, first reply of the next connect.',
+        "assumptions": ["in-memory control transport (a socket_base subclass) stands in for the TCP control socket; data connections are real loopback TCP", "oracle values (read sizes, kernel-chosen ports, connect results) are taken from the implementation run"]}
